@@ -106,17 +106,21 @@ def norm_outcome(p, effects=None, outcome_norm=None):
 
 
 def default_effects(p):
-    """Ordered effect list; a run of consecutive stores to pairwise distinct
-    locations is order-normalised (independent stores commute)."""
+    """Ordered effect list; a run of consecutive stores is reduced to the
+    last store per location and order-normalised (independent stores
+    commute)."""
     raw = _raw_effects(p)
     out, run_ = [], []
 
     def flush():
-        targets = [x.split(" = ")[0] for x in run_]
-        if len(set(targets)) == len(targets):
-            out.extend(sorted(run_))
-        else:
-            out.extend(run_)
+        # within a run of stores (nothing in between can observe them) a
+        # later store to the same location supersedes the earlier one
+        last = {}
+        for i, x in enumerate(run_):
+            last[x.split(" = ")[0]] = i
+        kept = [x for i, x in enumerate(run_)
+                if last[x.split(" = ")[0]] == i]
+        out.extend(sorted(kept))
         del run_[:]
     for x in raw:
         if x.startswith("store "):
